@@ -1473,7 +1473,8 @@ def main(tier: str) -> int:
         run.cov['exhaustive'] = not quick and not any(
             s.get('budget_exhausted') for s in drv.stats.values())
         run.notes['exhaustive_scope'] = (
-            f'RefMailbox.tla menu "{prof}": every program of <= 3 commands from the standard '
+            f'RefMailbox.tla menu "{prof}": every program of <= 3 commands (of the acting '
+            'session, and of the other session except as the last one) from the standard '
             'initial state (INBOX uids 1 2 4 with \\Deleted on 2, Box uid 1); on dict every '
             '(state, command) pair the server\'s choices reach; on maildir '
             + ('a seeded sample of the last level' if quick else 'the same (fs layout: sampled)'))
